@@ -5,6 +5,7 @@
      (1 cfg data state)             -> (reconstruct cline_idxs dd1_idxs dd2_idxs predict_training precision)
                                         index lists for keys 0..ncl-1 resp. -1..ndd-1
      (2 D L z b)                    -> sample_mvn
+     (9 w1 w2 ...)                  -> (r1 r2 ...)   batch of the above
    cfg   = (D ndd ncl a0 b0 minMu maxMu)       data = (y cl dd1 dd2)
    state = (W W0 V2 V1 V0 alpha prec tau tau0 phi2 phi1 phi0 eta2 eta1 eta0 gam Mu)
    val   = (0 q) | (1 v) | (2 m) | (3)         (3) = the MVN draw raised
@@ -71,7 +72,7 @@ Definition as_blk (s : sexp) : option blk :=
 
 Definition of_nats (l : list nat) : sexp := of_list of_nat l.
 
-Definition run_c08 (orc : oracle) (s : sexp) : sexp :=
+Definition run_one (orc : oracle) (s : sexp) : sexp :=
   match s with
   | SL [SZ 0; g; d; s0; bs; vals] =>
       match as_cfg g, as_data d, as_st s0, as_listof as_blk bs, as_listof as_val vals with
@@ -97,4 +98,11 @@ Definition run_c08 (orc : oracle) (s : sexp) : sexp :=
       | _, _, _, _ => bad_input
       end
   | _ => bad_input
+  end.
+
+(* (9 w1 w2 ...) -> (r1 r2 ...): several requests in one case *)
+Definition run_c08 (orc : oracle) (s : sexp) : sexp :=
+  match s with
+  | SL (SZ 9 :: ws) => SL (map (run_one orc) ws)
+  | _ => run_one orc s
   end.
